@@ -199,9 +199,10 @@ deriving DecidableEq, Repr, Inhabited
 abbrev R := Except Err Res
 
 /-- the constant-scaling factor used for non-Gaussian-integer scalars and for vectors:
-    `q_level · q_{level-1} ⋯` (`lcpr` primes); `ringQ.SubRings[level-i]` panics if `level < lcpr-1`. -/
+    `q_level · q_{level-1} ⋯` (`lcpr` primes); an error if `level < lcpr-1` (since fix C06-5; before,
+    `ringQ.SubRings[level-i]` panicked). -/
 def primeScale (P : Params) (level : Nat) : Except Err Dy :=
-  if level + 1 < P.lcpr then .error .panic else
+  if level + 1 < P.lcpr then .error .err else
     .ok <| (List.range P.lcpr).foldl (fun acc i =>
       if i = 0 then Dy.ofNat (P.q level) else smul acc (Dy.ofNat (P.q (level - i)))) Dy.one
 
@@ -239,13 +240,13 @@ def addElt (P : Params) (sub : Bool) (a b o : Meta) : R :=
     let Q := P.bigQ level
     .ok ⟨⟨level, degree, a.scale.max b.scale, ls⟩, [centerMod k0 Q, centerMod (sgn sub k1) Q]⟩
 
-/-- `Add/Sub` with a scalar.  NOTE: `opOut.Scale` is *not* written by the Go code in this branch:
-    the output keeps the scale the receiver had.  effect `[±re, ±im]` (added constants). -/
+/-- `Add/Sub` with a scalar: the receiver takes `op0`'s scale (since fix C06-1; before, `opOut.Scale`
+    was not written).  effect `[±re, ±im]` (added constants). -/
 def addScalar (P : Params) (sub : Bool) (a o : Meta) (re im : SD) : R :=
   let level := min a.level o.level
   let (cr, ci) := consts P re im a.scale
   let Q := P.bigQ level
-  .ok ⟨⟨level, a.degree, o.scale, a.logSlots⟩, [centerMod (sgn sub cr) Q, centerMod (sgn sub ci) Q]⟩
+  .ok ⟨⟨level, a.degree, a.scale, a.logSlots⟩, [centerMod (sgn sub cr) Q, centerMod (sgn sub ci) Q]⟩
 
 /-- `Encoder.Embed` length check: `len ≤ MaxSlots` and `len ≤ 2^LogDimensions.Cols`. -/
 def encodeOk (P : Params) (logSlots len : Nat) : Bool :=
@@ -329,22 +330,24 @@ def mtaScale (P : Params) (level : Nat) (isInt : Bool) (a o : Meta) : Except Err
   | .lt => .ok (sdiv o.scale a.scale, 1, o.scale)
   | .gt => .error .err
 
-/-- `MulThenAdd` with a scalar.  NOTE the receiver keeps *its own* level (`opOut.Resize(op0.Degree(),
-    opOut.Level())`) and is cut to `op0.Degree()`.  effect `[kOut, re, im]`. -/
-def mulThenAddScalar (P : Params) (a o : Meta) (re im : SD) : R := do
+/-- `MulThenAdd` with a scalar: evaluated at the minimum level, the receiver keeps its higher-degree
+    terms, the receiver must not be `op0` (fixes C06-2, C06-3).  effect `[kOut, re, im]`. -/
+def mulThenAddScalar (P : Params) (al : Alias) (a o : Meta) (re im : SD) : R := do
+  if al != .fresh then .error .err
   let level := min a.level o.level
   let isInt := (re.round P.prec).isInt && (im.round P.prec).isInt
   let (s, kOut, oscale) ← mtaScale P level isInt a o
   let (cr, ci) := consts P re im s
   let Q := P.bigQ level
-  .ok ⟨⟨o.level, a.degree, oscale, a.logSlots⟩, [centerMod kOut Q, centerMod cr Q, centerMod ci Q]⟩
+  .ok ⟨⟨level, max a.degree o.degree, oscale, a.logSlots⟩, [centerMod kOut Q, centerMod cr Q, centerMod ci Q]⟩
 
 /-- `MulThenAdd` with a vector: scale split as above, encode, then recursion on the element branch. -/
 def mulThenAddVec (P : Params) (al : Alias) (a o : Meta) (len : Nat) : R := do
+  if al != .fresh then .error .err
   let level := min a.level o.level
   let (s, kOut, oscale) ← mtaScale P level false a o
   if !encodeOk P a.logSlots len then .error .err
-  let r ← mulThenAddElt P false al a ⟨level, 0, s, a.logSlots⟩ ⟨o.level, a.degree, oscale, a.logSlots⟩
+  let r ← mulThenAddElt P false al a ⟨level, 0, s, a.logSlots⟩ ⟨level, max a.degree o.degree, oscale, a.logSlots⟩
   let Q := P.bigQ level
   .ok ⟨r.md, [centerMod (kOut * r.eff.headD 1) Q]⟩
 
@@ -356,22 +359,21 @@ def rescale (P : Params) (a : Meta) : R :=
     let scale := (List.range P.lcpr).foldl (fun s i => sdiv s (Dy.ofNat (P.q (a.level - i)))) a.scale
     .ok ⟨⟨a.level - P.lcpr, a.degree, scale, a.logSlots⟩, []⟩
 
-/-- the loop of `RescaleTo`: from `newLevel+1 = n` down; returns (#rescales, scale). -/
+/-- the loop of `RescaleTo` (`for newLevel > 0`): `n` = current level; divides by `q_n, q_{n-1}, …, q_1`
+    while the scale stays `≥ minScale/2`; returns (#rescales, scale). -/
 def rescaleToLoop (P : Params) (minHalf : Dy) : Nat → Nat → Dy → Nat × Dy
   | 0, nb, cur => (nb, cur)
   | n + 1, nb, cur =>
-    let s := sdiv cur (Dy.ofNat (P.q n))
+    let s := sdiv cur (Dy.ofNat (P.q (n + 1)))
     if s.lt minHalf then (nb, cur) else rescaleToLoop P minHalf n (nb + 1) s
 
-/-- `RescaleTo`.  The Go loop runs while `newLevel >= 0`, so it may consume `level+1` primes; the
-    following `Resize(…, -1)` panics. -/
+/-- `RescaleTo` (since fix C06-6 the prime `q_0` is never consumed). -/
 def rescaleTo (P : Params) (a : Meta) (minScale : Dy) : R :=
   if minScale.m = 0 then .error .err else
   if a.scale.m = 0 then .error .err else
   if a.level = 0 then .error .err else
-    let (nb, s) := rescaleToLoop P (sdiv minScale (Dy.ofNat 2)) (a.level + 1) 0 a.scale
-    if nb > a.level then .error .panic else
-      .ok ⟨⟨a.level - nb, a.degree, s, a.logSlots⟩, [(nb : Int)]⟩
+    let (nb, s) := rescaleToLoop P (sdiv minScale (Dy.ofNat 2)) a.level 0 a.scale
+    .ok ⟨⟨a.level - nb, a.degree, s, a.logSlots⟩, [(nb : Int)]⟩
 
 /-- `ring.DivRoundByLastModulus` on one integer coefficient: `⌊(x + ⌊q/2⌋)/q⌋`. -/
 def divRound (x : Int) (q : Nat) : Int := (x + ((q / 2 : Nat) : Int)) / (q : Int)
@@ -454,7 +456,7 @@ inductive Op
   | mulScalar (a o : Meta) (re im : SD)
   | mulVec (a o : Meta) (len : Nat)
   | mtaElt (relin : Bool) (al : Alias) (a b o : Meta)
-  | mtaScalar (a o : Meta) (re im : SD)
+  | mtaScalar (al : Alias) (a o : Meta) (re im : SD)
   | mtaVec (al : Alias) (a o : Meta) (len : Nat)
   | rescale (a : Meta)
   | rescaleTo (a : Meta) (minScale : Dy)
@@ -475,7 +477,7 @@ def step (P : Params) : Op → R
   | .mulScalar a o re im => mulScalar P a o re im
   | .mulVec a o len => mulVec P a o len
   | .mtaElt relin al a b o => mulThenAddElt P relin al a b o
-  | .mtaScalar a o re im => mulThenAddScalar P a o re im
+  | .mtaScalar al a o re im => mulThenAddScalar P al a o re im
   | .mtaVec al a o len => mulThenAddVec P al a o len
   | .rescale a => rescale P a
   | .rescaleTo a m => rescaleTo P a m
